@@ -28,9 +28,9 @@ import (
 
 func init() {
 	ev.Register(&ev.Check{
-		ID:    "C11",
-		Level: "model_checking",
-		Rule: "(a) histories: ALL sequences of <= 3 (thorough 4) operations from a 38-operation alphabet (8 schema methods x {plain schema, schema with types/allOf/enum rule, invalid schema}, Check/Len on 3 documents, 4 enum-rule methods, 4 regex-type methods) over one pool of live objects, plus each operation repeated 12 times and 3 round-robins of the whole alphabet; every result (verdict, code, position, AST, example bytes, used-type list, enum values) must equal the result on fresh objects, and every value handed to the caller must still equal its snapshot at the end of the history; (c) the same with every single sync.Pool answer deviated (fresh object / oldest pooled object) for histories <= 2; (b) map order: for every scenario of a corpus (type-reference / allOf / additionalProperties / key-shortcut families, type graphs, multi-shortcut objects) ALL single deviations (descending, rotations) of every dynamic range-over-map instance (thorough: pairs) - the library is built through an overlay that turns every `for k := range map` into iteration over an explicitly ordered key list - must leave all public results unchanged. states = distinct (history prefix) pool states, transitions = operations executed, traces_validated_against_impl = histories/scenario runs executed on the real library.",
+		ID:             "C11",
+		Level:          "model_checking",
+		Rule:           "(a) histories: ALL sequences of <= 3 (thorough 4) operations from a 38-operation alphabet (8 schema methods x {plain schema, schema with types/allOf/enum rule, invalid schema}, Check/Len on 3 documents, 4 enum-rule methods, 4 regex-type methods) over one pool of live objects, plus each operation repeated 12 times and 3 round-robins of the whole alphabet; every result (verdict, code, position, AST, example bytes, used-type list, enum values) must equal the result on fresh objects, and every value handed to the caller must still equal its snapshot at the end of the history; (c) the same with every single sync.Pool answer deviated (fresh object / oldest pooled object) for histories <= 2; (b) map order: for every scenario of a corpus (type-reference / allOf / additionalProperties / key-shortcut families, type graphs, multi-shortcut objects) ALL single deviations (descending, rotations) of every dynamic range-over-map instance (thorough: pairs) - the library is built through an overlay that turns every `for k := range map` into iteration over an explicitly ordered key list - must leave all public results unchanged. states = distinct (history prefix) pool states, transitions = operations executed, traces_validated_against_impl = histories/scenario runs executed on the real library.",
 		Workers:        func(string) int { return 16 },
 		Run:            run,
 		Replay:         replay,
@@ -360,17 +360,17 @@ func reportHistory(c *ev.Ctx, ops []opT, fresh []string, hist []int, env []int, 
 func observeCase(cs sc.Case, docs []string) string {
 	var b strings.Builder
 	s, r := lib.Check(cs.Spec())
-	fmt.Fprintf(&b, "check=%s;", r.Verdict())
+	fmt.Fprintf(&b, "check=%s;", r.Full())
 	if s == nil {
 		return b.String()
 	}
 	for _, d := range docs {
-		fmt.Fprintf(&b, "%s;", lib.Validate(s, d).Verdict())
+		fmt.Fprintf(&b, "%s;", lib.Validate(s, d).Full())
 	}
 	ex, err := s.Example()
-	fmt.Fprintf(&b, "ex=%s %s;", ex, lib.FromErr(err).Verdict())
+	fmt.Fprintf(&b, "ex=%s %s;", ex, lib.FromErr(err).Full())
 	u, err := s.UsedUserTypes()
-	fmt.Fprintf(&b, "used=%v %s;", u, lib.FromErr(err).Verdict())
+	fmt.Fprintf(&b, "used=%v %s;", u, lib.FromErr(err).Full())
 	if a, err := s.GetAST(); err == nil {
 		j, _ := stdjson.Marshal(a)
 		b.Write(j)
@@ -406,6 +406,29 @@ func mapOrderCases(thorough bool, f func(sc.Case, []string)) {
 	f(allof, []string{`{"r":1,"a":1,"b":"s","c":true,"d":null}`, `{"r":1}`, `{}`, `{"a":1,"b":"s","c":true,"d":null}`, `{"r":1,"a":"x","b":1,"c":1,"d":1}`})
 	bad := sc.Case{Root: gen.Obj(gen.P("a", gen.Ref("@M1")), gen.P("b", gen.Ref("@M2")), gen.P("c", gen.Int("1").With(gen.R("min", "5")))), Types: []sc.TypeDecl{{Name: "@T", Body: gen.Int("1")}}}
 	f(bad, []string{`{}`})
+	// errors located inside added types (also inside the unnamed types of their
+	// or-alternatives): which type the checker visits first is a map order
+	for _, body := range []*gen.Node{
+		gen.Obj(gen.P("p", gen.Ref("@T", "@X"))),
+		gen.Obj(gen.P("first", gen.Int("1")), gen.P("p", gen.Ref("@X", "@T")), gen.P("q", gen.Ref("@Y"))),
+		gen.Arr(gen.Ref("@X", "@Y")),
+		gen.Obj(gen.P("p", gen.Int("1").With(gen.RL("or", gen.RuleItem{Set: []gen.Rule{gen.R("type", `"@X"`), gen.R("min", "1")}}, gen.RuleItem{Set: []gen.Rule{gen.R("type", `"integer"`)}})))),
+		gen.Obj(gen.P("p", gen.Int("1").With(gen.R("min", "5"))), gen.P("q", gen.Ref("@T", "@U"))),
+	} {
+		for _, root := range []*gen.Node{gen.Ref("@T"), gen.Obj(gen.P("k", gen.Ref("@T")), gen.P("l", gen.Ref("@U"))), gen.Arr(gen.Ref("@U", "@T"))} {
+			for _, mesh := range []bool{false, true} {
+				f(sc.Case{Root: root, Mesh: mesh, Types: []sc.TypeDecl{{Name: "@T", Body: body}, {Name: "@U", Body: gen.Obj(gen.P("u", gen.Ref("@T", "@U").With(gen.R("optional", "true"))))}}}, []string{`{}`})
+			}
+		}
+	}
+	// an error inside a node inherited through allOf: it lies in the parent's file
+	for _, root := range []*gen.Node{gen.Ref("@A"), gen.Obj(gen.P("k", gen.Ref("@A")))} {
+		for _, mesh := range []bool{false, true} {
+			f(sc.Case{Root: root, Mesh: mesh, Types: []sc.TypeDecl{
+				{Name: "@A", Body: gen.Obj().With(gen.R("allOf", `"@B"`))},
+				{Name: "@B", Body: gen.Obj(gen.P("a_rather_long_key_to_move_the_error_behind_the_child", gen.Int("1")), gen.P("q", gen.Ref("@X")))}}}, []string{`{}`})
+		}
+	}
 	orr := sc.Case{Root: gen.Int("1").With(gen.RL("or", gen.RuleItem{Set: []gen.Rule{gen.R("type", `"integer"`), gen.R("min", "0")}}, gen.RuleItem{Set: []gen.Rule{gen.R("type", `"string"`), gen.R("maxLength", "2")}}, gen.RuleItem{Set: []gen.Rule{gen.R("type", `"boolean"`)}}))}
 	f(orr, []string{"1", "-1", `"ab"`, `"abc"`, "true", "null", "{}"})
 }
